@@ -281,7 +281,15 @@ pub fn run<P: Property>(args: RunArgs) -> ! {
     let mut not_run = 0u64;
     let strategy = p.strategy(tier);
 
+    // a case that never returns costs the watchdog's patience three times (kill, confirm, confirm again); once one is on
+    // record the run stops handing out work, and workers that stall afterwards are ended without further ceremony
+    let hang_recorded = std::cell::Cell::new(false);
+    let further_hangs = std::cell::Cell::new(0u64);
     let mut handle_dead_case = |index: u64, case: serde_json::Value, first: String, violations: &mut Vec<(String, PathBuf, String)>, merged: &mut WorkerResult, infra: &mut Vec<String>| {
+        if hang_recorded.get() && first.starts_with("no progress") {
+            further_hangs.set(further_hangs.get() + 1);
+            return;
+        }
         // confirm in a fresh process
         let oc = exec_case_in_child(id, tier, &case, Duration::from_secs(p.hang_secs()));
         let key = if oc.timed_out {
@@ -338,10 +346,28 @@ pub fn run<P: Property>(args: RunArgs) -> ! {
         }
         let rf = ReplayFile { property: id.into(), key: key.clone(), detail: format!("process died / hung on this case ({first})"), seed: args.seed, index: index as i64, case: serde_json::to_value(&best).unwrap() };
         let path = write_replay(&rf);
+        if key.starts_with("hang:") {
+            hang_recorded.set(true);
+        }
         violations.push((key, path, rf.detail.clone()));
     };
 
+    // A run that has found something keeps going (a shallow defect must not hide what lies behind it) — but not for ever:
+    // a change that breaks most cases makes every chunk end in a dead worker or in minutes of shrinking. Once a violation
+    // is on record the run hands out work for a bounded time more; what was not run is counted in the evidence.
+    let after_first_violation = Duration::from_secs(tier.pick(120, 900));
+    let mut stop_at: Option<Instant> = None;
+    let mut deaths = 0u64;
     loop {
+        if stop_at.is_none() && (!violations.is_empty() || !merged.violations.is_empty()) {
+            stop_at = Some(Instant::now() + after_first_violation);
+        }
+        if stop_at.map_or(false, |t| Instant::now() > t) || (deaths > 40 && !violations.is_empty()) {
+            if !queue.is_empty() {
+                not_run += queue.iter().map(|(lo, hi)| hi - lo).sum::<u64>();
+                queue.clear();
+            }
+        }
         // spawn
         while running.len() < max_workers {
             let Some((lo, hi)) = queue.pop_front() else { break };
@@ -382,6 +408,7 @@ pub fn run<P: Property>(args: RunArgs) -> ! {
                         }
                     } else {
                         // died: which case?
+                        deaths += 1;
                         let first = format!("{st}");
                         match read_last(&r.last) {
                             Some((index, case)) => {
@@ -415,7 +442,10 @@ pub fn run<P: Property>(args: RunArgs) -> ! {
                             Some((index, case)) => {
                                 lost_cases += index.saturating_sub(r.lo);
                                 handle_dead_case(index, case, "no progress (watchdog)".into(), &mut violations, &mut merged, &mut infra);
-                                if index + 1 < r.hi {
+                                if hang_recorded.get() {
+                                    not_run += queue.iter().map(|(lo, hi)| hi - lo).sum::<u64>() + (r.hi - index - 1);
+                                    queue.clear();
+                                } else if index + 1 < r.hi {
                                     queue.push_front((index + 1, r.hi));
                                 }
                             }
@@ -482,6 +512,7 @@ pub fn run<P: Property>(args: RunArgs) -> ! {
         "rejected_configs": merged.rejected_configs,
         "cases_lost_to_worker_death": lost_cases,
         "cases_not_run_after_first_violation": not_run,
+        "workers_stalled_after_the_recorded_hang": further_hangs.get(),
         "workers": max_workers,
     });
     if exhaustive {
